@@ -9,7 +9,15 @@
 // lim opcodes: 0 Borrow, 1 TryBorrow, 2 Return, 3 TimeoutLimit.Borrow(arg=1: zero timeout),
 //              4 TimeoutLimit.Return, 5 HTTP request (arg=1: handler panics), 6 cancel the request
 //              context of thread arg (its handler, if inside, stays inside); obj maxconns with
-//              n <= 0 is the documented "no limit" configuration
+//              n <= 0 is the documented "no limit" configuration;
+//              7 HTTP request whose handler takes the connection over with http.Hijacker (arg 0: hijacks
+//              when it enters, 1: hijacks when it is released, 2: hijacks and closes the connection
+//              itself before it returns, 3: hijacks and panics); 8 Close() the connection hijacked by
+//              thread arg's last such request (legal any number of times, by anybody)
+// lim objs:    limit tlimit maxconns maxchain; maxhij = maxconns (same construction, the generator adds
+//              opcodes 7 / 8); engine = a rest.Server configured by "eng" (RestConf.MaxConns = n, one
+//              route per instance), routes bound by the engine itself (Server.StartWithOpts with an
+//              address that cannot be listened on), requests served by the bound router
 // tr opcodes:  0 Schedule(arg=1: task panics), 1 ScheduleImmediately, 2 Wait
 // pl opcodes:  0 Get, 1 Put (most recently obtained resource), 2 advance clock by arg ns, 3 Put(nil),
 //              4 Get whose create(), if it is called, panics (result -2)
@@ -26,8 +34,10 @@
 package main
 
 import (
+	"bufio"
 	"context"
 	"fmt"
+	"net"
 	"net/http"
 	"net/http/httptest"
 	"regexp"
@@ -43,7 +53,10 @@ import (
 	"github.com/zeromicro/go-zero/core/syncx"
 	"github.com/zeromicro/go-zero/core/threading"
 	"github.com/zeromicro/go-zero/core/timex"
+	"github.com/zeromicro/go-zero/rest"
+	"github.com/zeromicro/go-zero/rest/chain"
 	"github.com/zeromicro/go-zero/rest/handler"
+	"github.com/zeromicro/go-zero/rest/router"
 	"verifh/hx"
 	"verifh/sched"
 )
@@ -62,6 +75,22 @@ type Case struct {
 	Sink    int         `json:"sink"`  // fx: 0 Done(), 1 ForEach(noop), 2 ForAll(drain)
 	Inst    []int       `json:"inst"`  // instance used by each thread (absent: all use instance 0)
 	Ns      []int       `json:"ns"`    // capacity of each instance (absent: [n])
+	Eng     Eng         `json:"eng"`   // obj "engine": how the rest.Server is configured
+}
+
+// Eng: configuration of the rest.Server of obj "engine".
+//   Use    number of server.Use middlewares (their constructors are gated when they run on an actor's
+//          goroutine, i.e. when the engine assembles a route's chain on a request)
+//   Off    Middlewares.MaxConns = false: no limit
+//   Chain  0 native chain with MaxConns only; 1 MaxConns + Timeout + Recover (the engine's order);
+//          2 rest.WithChain(user chain that contains handler.MaxConnsHandler(n))
+//   Group  0 one AddRoute per route; 1 all routes in one AddRoutes; 2 one AddRoutes with route-level
+//          middlewares (rest.WithMiddlewares); 3 one AddRoute per route, each with rest.WithPrefix("/p")
+type Eng struct {
+	Use   int  `json:"use"`
+	Off   bool `json:"off"`
+	Chain int  `json:"chain"`
+	Group int  `json:"group"`
 }
 
 // Src: the source of an fx stage and its state AT THE MOMENT THE STAGE IS ATTACHED.
@@ -157,15 +186,44 @@ func runLim(c Case, ctl *sched.Ctl, mon *monitor, wg *sync.WaitGroup) {
 			mon.report("%s: %d holders inside the guarded region, cap %d", what, v, caps[k])
 		}
 	}
+	// connections taken over by handlers (opcode 7), per thread: what Hijack() handed to the handler
+	conns := make([]net.Conn, len(c.Scripts))
+	var cmu sync.Mutex
+	hijack := func(w http.ResponseWriter, tid int) {
+		hj, ok := w.(http.Hijacker)
+		if !ok {
+			return
+		}
+		if conn, _, err := hj.Hijack(); err == nil {
+			cmu.Lock()
+			conns[tid] = conn
+			cmu.Unlock()
+		}
+	}
 	body := http.HandlerFunc(func(w http.ResponseWriter, r *http.Request) {
 		tid, _ := strconv.Atoi(r.Header.Get("X-Tid"))
 		i, _ := strconv.Atoi(r.Header.Get("X-Op"))
+		hj := r.Header.Get("X-Hijack")
 		k := c.instOf(tid)
 		enter(&inside[k], k, "maxconns")
 		ctl.Log(tid, "fs", i)
+		if hj == "0" || hj == "2" || hj == "3" {
+			hijack(w, tid)
+		}
 		ctl.Gate(tid, "fn", i)
 		if c.Free {
 			spin(tid + i)
+		}
+		if hj == "1" {
+			hijack(w, tid)
+		}
+		if hj == "2" {
+			cmu.Lock()
+			conn := conns[tid]
+			cmu.Unlock()
+			if conn != nil {
+				conn.Close()
+			}
 		}
 		ctl.Log(tid, "fe", i)
 		atomic.AddInt32(&inside[k], -1)
@@ -177,12 +235,24 @@ func runLim(c Case, ctl *sched.Ctl, mon *monitor, wg *sync.WaitGroup) {
 		case "3":
 			endHolder(5, nil)
 		}
-		w.WriteHeader(http.StatusOK)
+		if hj == "" {
+			w.WriteHeader(http.StatusOK)
+		}
 	})
 	// one middleware value per capacity; every route wrapped by it gets its own latch
 	mws := map[int]func(http.Handler) http.Handler{}
+	var engine http.Handler
+	if c.Obj == "engine" {
+		var err error
+		if engine, err = buildEngine(c, ctl, body, ni); err != nil {
+			mon.out.Err = "engine: " + err.Error()
+			return
+		}
+	}
 	for k, n := range caps {
-		if c.Obj == "maxconns" {
+		if c.Obj == "engine" {
+			hs[k] = engine
+		} else if c.Obj == "maxconns" || c.Obj == "maxhij" {
 			if mws[n] == nil {
 				mws[n] = handler.MaxConnsHandler(n)
 			}
@@ -203,7 +273,6 @@ func runLim(c Case, ctl *sched.Ctl, mon *monitor, wg *sync.WaitGroup) {
 	// every request carries its own context; opcode 6 cancels the context of thread arg's current
 	// (or last) request - "the client went away" - while its handler stays inside the body
 	cancels := make([]context.CancelFunc, len(c.Scripts))
-	var cmu sync.Mutex
 	for tid, script := range c.Scripts {
 		tid, script := tid, script
 		k := c.instOf(tid)
@@ -281,16 +350,28 @@ func runLim(c Case, ctl *sched.Ctl, mon *monitor, wg *sync.WaitGroup) {
 					} else {
 						r = -1
 					}
-				case 5:
-					rec := httptest.NewRecorder()
+				case 5, 7:
+					// the writer is hijackable, as the one of an HTTP/1.x server connection is
+					rec := &hijackRec{ResponseRecorder: httptest.NewRecorder()}
 					rctx, cancel := context.WithCancel(context.Background())
 					cmu.Lock()
 					cancels[tid] = cancel
 					cmu.Unlock()
-					req := httptest.NewRequest(http.MethodGet, "/", nil).WithContext(rctx)
+					path := fmt.Sprintf("/r%d", k)
+					if c.Obj == "engine" && c.Eng.Group == 3 {
+						path = "/p" + path
+					}
+					req := httptest.NewRequest(http.MethodGet, path, nil).WithContext(rctx)
 					req.Header.Set("X-Tid", strconv.Itoa(tid))
 					req.Header.Set("X-Op", strconv.Itoa(i))
-					req.Header.Set("X-Panic", strconv.FormatInt(op[1], 10))
+					if op[0] == 5 {
+						req.Header.Set("X-Panic", strconv.FormatInt(op[1], 10))
+					} else {
+						req.Header.Set("X-Hijack", strconv.FormatInt(op[1], 10))
+						if op[1] == 3 {
+							req.Header.Set("X-Panic", "1")
+						}
+					}
 					func() {
 						defer func() {
 							if p := recover(); p != nil {
@@ -302,7 +383,7 @@ func runLim(c Case, ctl *sched.Ctl, mon *monitor, wg *sync.WaitGroup) {
 							r = 1
 						} else if rec.Code == http.StatusServiceUnavailable {
 							r = 0
-						} else if rec.Code == http.StatusInternalServerError && c.Obj == "maxchain" {
+						} else if rec.Code == http.StatusInternalServerError && (c.Obj == "maxchain" || c.Obj == "engine" && c.Eng.Chain == 1) {
 							r = 3 // the handler's panic, as RecoverHandler reports it
 						} else {
 							r = -1
@@ -319,11 +400,119 @@ func runLim(c Case, ctl *sched.Ctl, mon *monitor, wg *sync.WaitGroup) {
 						f()
 					}
 					r = 1
+				case 8:
+					var conn net.Conn
+					cmu.Lock()
+					if t := int(op[1]); t >= 0 && t < len(conns) {
+						conn = conns[t]
+					}
+					cmu.Unlock()
+					if conn != nil {
+						conn.Close()
+					}
+					r = 1
 				}
 				ctl.Log(tid, "ret", i, r)
 			}
 		})
 	}
+}
+
+// hijackRec is a ResponseRecorder whose connection can be taken over, as the writer of an HTTP/1.x
+// server connection can: Hijack hands out one end of an in-memory pipe.
+type hijackRec struct {
+	*httptest.ResponseRecorder
+	peer net.Conn
+}
+
+func (h *hijackRec) Hijack() (net.Conn, *bufio.ReadWriter, error) {
+	if h.peer != nil {
+		return nil, nil, http.ErrHijacked
+	}
+	a, b := net.Pipe()
+	h.peer = b
+	return a, bufio.NewReadWriter(bufio.NewReader(a), bufio.NewWriter(a)), nil
+}
+
+// buildEngine configures a rest.Server (MaxConns = c.N, one route "/r<k>" per instance, all served
+// by body) and lets the ENGINE bind the routes - through the public API: Server.StartWithOpts with a
+// start option that makes the listen address unusable, so that Start returns (by panicking with
+// the listen error) right after the routes have been bound to our router.  What comes back is the
+// handler an http.Server started by go-zero would serve.
+func buildEngine(c Case, ctl *sched.Ctl, body http.HandlerFunc, routes int) (http.Handler, error) {
+	conf := rest.RestConf{Host: "127.0.0.1", MaxConns: c.N}
+	conf.Middlewares.MaxConns = !c.Eng.Off
+	if c.Eng.Chain == 1 {
+		conf.Middlewares.Timeout = true
+		conf.Middlewares.Recover = true
+		conf.Timeout = int64(time.Hour / time.Millisecond)
+	}
+	rt := router.NewRouter()
+	opts := []rest.RunOption{rest.WithRouter(rt)}
+	if c.Eng.Chain == 2 {
+		opts = append(opts, rest.WithChain(chain.New(handler.MaxConnsHandler(c.N))))
+	}
+	server, err := rest.NewServer(conf, opts...)
+	if err != nil {
+		return nil, err
+	}
+	// a user middleware: its constructor runs whenever the engine chains the middlewares of a route
+	// together.  At bind time that is the goroutine that calls Start (not an actor: no gate); if the
+	// engine does it on a request, the requesting actor parks here, inside the assembly.
+	mw := func(next http.HandlerFunc) http.HandlerFunc {
+		if a := ctl.Actor(); a >= 0 {
+			ctl.Gate(a, "mw", ctl.CurOp(a))
+		}
+		return func(w http.ResponseWriter, r *http.Request) { next(w, r) }
+	}
+	for i := 0; i < c.Eng.Use; i++ {
+		server.Use(mw)
+	}
+	rs := make([]rest.Route, routes)
+	for k := range rs {
+		rs[k] = rest.Route{Method: http.MethodGet, Path: fmt.Sprintf("/r%d", k), Handler: body}
+	}
+	switch c.Eng.Group {
+	case 1:
+		server.AddRoutes(rs)
+	case 2:
+		server.AddRoutes(rest.WithMiddlewares([]rest.Middleware{mw}, rs...))
+	case 3:
+		for _, r := range rs {
+			server.AddRoute(r, rest.WithPrefix("/p"))
+		}
+	default:
+		for _, r := range rs {
+			server.AddRoute(r)
+		}
+	}
+	bound := make(chan struct{})
+	done := make(chan struct{})
+	var startErr any
+	go func() {
+		defer close(done)
+		defer func() { startErr = recover() }() // Start panics with the listen error
+		server.StartWithOpts(func(svr *http.Server) {
+			svr.Addr = "127.0.0.1:-1" // not an address: ListenAndServe fails at once
+			close(bound)
+		})
+	}()
+	select {
+	case <-done:
+	case <-time.After(20 * time.Second):
+		select {
+		case <-bound:
+			return nil, fmt.Errorf("Start is serving although the address is unusable")
+		default:
+			return nil, fmt.Errorf("Start did not get to the start options")
+		}
+	}
+	select {
+	case <-bound:
+	default:
+		return nil, fmt.Errorf("Start returned before the start options were applied: %v", startErr)
+	}
+	return rt, nil
 }
 
 func runTR(c Case, ctl *sched.Ctl, mon *monitor, wg *sync.WaitGroup) {
